@@ -46,3 +46,40 @@ def tagged (s t : Char) (e : List Char) : Bool := e.contains s || e.contains t
 
 end TagParser
 end Vakt
+
+/-! ## The index form: `get_tag_indices` and the slicing loop of `compile_regex`
+
+`tagIdxAux` walks the phrase with a position counter exactly as `get_tag_indices` does and
+returns the `(start index, end index + 1)` pair of every top-level tagged segment (the flat list
+of the implementation, read two by two); `piecesFrom` is the slicing loop of `compile_regex`.
+`Proofs/TagIndex.lean` shows that together they compute `scan`. -/
+namespace Vakt.TagParser
+
+def tagIdxAux (s t : Char) : List Char → (i idx level : Nat) → (acc : List (Nat × Nat)) → Option (List (Nat × Nat))
+  | [], _, _, 0, acc => some acc
+  | [], _, _, _ + 1, _ => none
+  | c :: cs, i, idx, level, acc =>
+    if c = s then tagIdxAux s t cs (i + 1) (if level = 0 then i else idx) (level + 1) acc
+    else if c = t then
+      match level with
+      | 0 => none
+      | 1 => tagIdxAux s t cs (i + 1) idx 0 (acc ++ [(idx, i + 1)])
+      | n + 2 => tagIdxAux s t cs (i + 1) idx (n + 1) acc
+    else tagIdxAux s t cs (i + 1) idx level acc
+
+def tagIndices (s t : Char) (e : List Char) : Option (List (Nat × Nat)) := tagIdxAux s t e 0 0 0 []
+
+/-- `phrase[a:b]` -/
+def slice (l : List Char) (a b : Nat) : List Char := (l.take b).drop a
+
+/-- the loop of `compile_regex`: literal before each segment, the segment without its tags, the literal tail -/
+def piecesFrom (phrase : List Char) : List (Nat × Nat) → Nat → List Piece
+  | [], endp => [Piece.lit (phrase.drop endp)]
+  | (idx, e) :: rest, endp =>
+    Piece.lit (slice phrase endp idx) :: Piece.seg (slice phrase (idx + 1) (e - 1)) :: piecesFrom phrase rest e
+
+/-- `get_tag_indices` followed by the slicing loop -/
+def scanByIndex (s t : Char) (e : List Char) : Option (List Piece) :=
+  (tagIndices s t e).map (fun ix => piecesFrom e ix 0)
+
+end Vakt.TagParser
